@@ -147,7 +147,11 @@ def composites():
         from .c02 import CASES_REL
         D.make('HvUsesOwned', 'dut', D.wire('a', 4), D.wire('b', 4), D.wire('r', 4), D.wire('q', 4), D.wire('c', 4), rel=CASES_REL)
         return None
-    return [('wires between children created by a child', owned), ('behavioural block with a local named like a port', shadow_local), ('parameter pass-through (first instance, own name)', params(True, 'START')), ('parameter pass-through (first instance, same name)', params(True, 'INIT')),
+    def unused_state(D):
+        from .c02 import CASES_REL
+        D.make('HvUnusedState', 'dut', D.wire('a', 3), D.wire('q', 5), rel=CASES_REL)
+        return None
+    return [('behavioural block with a state attribute its clock() never touches', unused_state), ('wires between children created by a child', owned), ('behavioural block with a local named like a port', shadow_local), ('parameter pass-through (first instance, own name)', params(True, 'START')), ('parameter pass-through (first instance, same name)', params(True, 'INIT')),
             ('parameter pass-through (second instance)', params(False, 'START')),
             ('user classes without structureName', user_classes), ('same-named children, different structure', same_inner), ('Reg x5 (shared names)', regs), ('Add x5 (shared names)', adds), ('Abs/Neg/Sign', abss), ('BufEnable/Latch/Comparator', misc),
             ('inner wire named like an outer wire', shadow), ('second clock domain', two_domains), ('nested + fan-out', nested)]
